@@ -118,6 +118,16 @@ Run(i, t) == LET tr == Trip(i, t) IN IF tr.out[1] = "next" THEN Run(tr.out[2], t
 Result == res \div 2
 RoundUp8(x) == IF x = 0 THEN 8 ELSE ((x + 7) \div 8) * 8
 
+\* Closed form of the kernel's answer (used by TraceSearch.tla, justified here by ClosedFormOK): a key
+\* >= k inside the slice is found first; otherwise the code as it is goes on through the key slots
+\* up to the end of the 8-word group (for len 0: the four slots of the first group).
+Closed(t) ==
+  IF p < nk THEN p
+  ELSE IF FixTail \/ (len % 8 = 0 /\ len > 0) THEN nk
+  ELSE LET over == {q \in len..(RoundUp8(len) - 2) : q % 2 = 0 /\ GE(q, t)}
+       IN  IF over = {} THEN nk ELSE (CHOOSE q \in over : \A r \in over : q <= r) \div 2
+ClosedFormOK == pc = "done" => Result = Closed(tail)
+
 (* ------------------------------ properties (C20) ---------------------------------------- *)
 TypeOK == /\ pc \in {"loop", "done"} /\ idx % 8 = 0 /\ res \in 0..(len + 2 * Pad)
 CaseSane == (pc = "loop" /\ idx = 0) => SpecSearch = p                      \* the case encoding means what it says
